@@ -8,9 +8,10 @@ package main
 
 import (
 	"fmt"
-	"hash/fnv"
+	"os"
+	"slices"
 	"runtime"
-	"sort"
+	"runtime/pprof"
 	"sync"
 	"time"
 
@@ -50,9 +51,11 @@ func (r *jobResult) fail(sig, what string, replay map[string]any) {
 
 func (r *jobResult) nontriv(input string) {
 	r.nontrivial++
-	h := fnv.New64a()
-	h.Write([]byte(input))
-	r.ntHashes = append(r.ntHashes, h.Sum64())
+	h := uint64(14695981039346656037) // FNV-1a 64
+	for i := 0; i < len(input); i++ {
+		h = (h ^ uint64(input[i])) * 1099511628211
+	}
+	r.ntHashes = append(r.ntHashes, h)
 }
 
 type job func(r *jobResult)
@@ -78,6 +81,12 @@ var (
 
 // runDomain runs the jobs of one domain on all cores and merges the results in job order.
 func runDomain(name, bounds string, jobs []job) {
+	t0 := time.Now()
+	defer func() {
+		if os.Getenv("VERIF_DEBUG") != "" {
+			fmt.Fprintf(os.Stderr, "debug: domain %s took %.1fs\n", name, time.Since(t0).Seconds())
+		}
+	}()
 	res := make([]*jobResult, len(jobs))
 	var wg sync.WaitGroup
 	ch := make(chan int)
@@ -142,7 +151,7 @@ func countDistinct(h []uint64) int {
 		return 0
 	}
 	s := append([]uint64(nil), h...)
-	sort.Slice(s, func(i, j int) bool { return s[i] < s[j] })
+	slices.Sort(s)
 	n := 1
 	for i := 1; i < len(s); i++ {
 		if s[i] != s[i-1] {
@@ -166,6 +175,11 @@ func main() {
 		c.Budget(150 * time.Second)
 	}
 
+	if pf := os.Getenv("VERIF_PROF"); pf != "" {
+		f, _ := os.Create(pf)
+		pprof.StartCPUProfile(f)
+		defer pprof.StopCPUProfile()
+	}
 	selfTest()
 
 	runIntDomain()
@@ -212,5 +226,6 @@ func main() {
 		"numeric carriers fed to Unmarshal* are integer-valued (the integer boundary grid); a Float target may round to the nearest float64, every other target must keep the exact number or return an error",
 		"MarshalFloat (not the default binding) is only given finite values; non-finite values go through MarshalFloatContext, the default Float binding",
 	}
+	pprof.StopCPUProfile()
 	c.Finish()
 }
